@@ -13,6 +13,7 @@ import (
 	"github.com/zclconf/go-cty/cty"
 
 	"verif/harness/c05"
+	"verif/harness/c08"
 	"verif/harness/core"
 	"verif/harness/dec"
 	"verif/harness/e1"
@@ -213,7 +214,11 @@ func handle(c *core.Check, st core.State, varsOnly bool) {
 				return
 			}
 			if !predOom && predOK && !predErr && !u1.RawEquals(predVal) {
-				c.Violation("differs-from-spec", fmt.Sprintf("%s: expanded decode gives %s, the specification describes %s", desc, e1.Describe(u1), e1.Describe(predVal)), vec)
+				dsig := "differs-from-spec"
+				if d := c08.ValueDiff(u1, predVal); d != "" {
+					dsig += "/" + d // a named root cause shared with C08 (e.g. the element type of an EMPTY two-label map)
+				}
+				c.Violation(dsig, fmt.Sprintf("%s: expanded decode gives %s, the specification describes %s", desc, e1.Describe(u1), e1.Describe(predVal)), vec)
 				return
 			}
 		}
@@ -242,7 +247,14 @@ func handle(c *core.Check, st core.State, varsOnly bool) {
 			return
 		}
 		if !dec.Conforms(uv.Type(), ity.WithoutOptionalAttributesDeep()) {
-			c.Violation("unknown-for_each/type", fmt.Sprintf("%s with %s unknown: result %s of type %s does not conform to the implied type %s", desc, x, e1.Describe(uv), uv.Type().FriendlyName(), ity.FriendlyName()), vec)
+			tsig := "unknown-for_each/type"
+			if d := c08.TypeDiff(uv.Type(), ity.WithoutOptionalAttributesDeep()); d != "" {
+				tsig += "/" + d
+				if uv.IsKnown() && !uv.IsNull() && uv.CanIterateElements() && uv.LengthInt() == 0 {
+					tsig += "/empty"
+				}
+			}
+			c.Violation(tsig, fmt.Sprintf("%s with %s unknown: result %s of type %s does not conform to the implied type %s", desc, x, e1.Describe(uv), uv.Type().FriendlyName(), ity.FriendlyName()), vec)
 			return
 		}
 		_ = affected
